@@ -110,6 +110,13 @@ class Repartition(Expr):
 
                     # Ensure the computed divisions are unique
                     divisions = list(unique(divisions[:-1])) + [divisions[-1]]
+                    if len(divisions) != npartitions + 1:
+                        # The interpolated divisions collide (narrow integer or
+                        # duplicated index range): they cannot give the partition
+                        # count this expression reports
+                        return RepartitionToMore(
+                            self.frame, self.operand("new_partitions")
+                        )
                     return RepartitionDivisions(df, divisions, self.force)
                 else:
                     return RepartitionToMore(self.frame, self.operand("new_partitions"))
